@@ -29,7 +29,7 @@ class In:
         return [self.val, self.cas, self.flags, self.ttl, self.delta, self.init]
 
     def wellformed(self):
-        return [z3.ULT(vlen(self.val), 1 << 32)]
+        return [z3.ULT(vlen(self.val), 1 << 31)]
 
 
 class Summary:
